@@ -90,7 +90,7 @@ def oracle_factory(ctx):
 
 @st.composite
 def cases(draw, depth=3):
-    spec, params, value = draw(V.cases(frag=FRAG, depth=depth))
+    spec, params, value = draw(V.cases(frag=FRAG, depth=depth, rootrefs=True))
     extra = []
     try:
         data = R.ref_build(spec, value, params)
@@ -226,7 +226,14 @@ def probe_cases(draw):
     if prod == "rebuild" and not any(n == "later" and s[0] in ("bytes", "array") for n, s in members):
         members = [m for m in members if m[0] != name]
         members.insert(0, [name, B1])
-    spec = ["struct", members]
+    container = draw(st.sampled_from(["struct", "struct", "seq"]))
+    if container == "seq" and prod != "rebuild" and all(n is not None or G.buildnone(s_) for n, s_ in members):
+        # same members in a Sequence (built from a list; named members still land in the context)
+        if prod == "default" and draw(st.booleans()):
+            pass
+        spec = ["seq", members]
+    else:
+        spec = ["struct", members]
     params = {}
     value = V.gen_value(draw, spec, R.top_scope(params, "build"))
     return [spec, params, value, []]
